@@ -310,6 +310,17 @@ def REWIRE(K=0, horizon=6, ops=None):
     return spec(f'REWIRE[K{K}]', devs, horizon, ops, K)
 
 
+def BUF2_SCRIPT(K=0, horizon=7, ops=None):
+    '''Two buffers in a row in front of a slow machine; the input of the second (finite) one is blocked for a while
+    (scripted), parts pile up in the first one and are released when the block is lifted while the second still has room.'''
+    devs = [src('S', 0.5, budget=7), buf('B1', ['S'], None), buf('B2', ['B1'], 3), proc('M', ['B2'], 2), sink('K', ['M'])]
+    if ops is None:
+        ops = [('fail', 'M', 0), ('restore', 'M'), ('block', 'K', True), ('block', 'K', False)]
+    s = spec(f'BUF2SCRIPT[K{K}]', devs, horizon, ops, K)
+    s['script'] = [[1.75, 2, ['block', 'B2', True]], [3.75, 2, ['block', 'B2', False]]]
+    return s
+
+
 def LOOP(K=0, horizon=6, delay=1, cap=4, ops=None):
     '''A multi-pass store: parts leave the buffer through a gate that sends them straight back into the SAME buffer
     until they have been through it twice (zero-time loop: the part re-enters inside the buffer's own hand-over).'''
